@@ -7,14 +7,25 @@
    present fingerprint having run all commands successfully, with generates present. *)
 From Coq Require Import List String NArith Bool.
 Import ListNotations.
-From TV Require Import Fp.Model Fp.ProofsSafe Fp.ProofsC04 Fp.ProofsPartial Fp.Refute Fp.Examples Extracted.Facts Run.FpCases.
+From TV Require Import Fp.Model Fp.ProofsSafe Fp.ProofsC04 Fp.ProofsPartial Fp.ProofsCurrentCs Fp.ProofsCurrentTs Fp.Refute Fp.Examples Fp.Current Extracted.Facts Run.FpCases.
+
+(* READING GUIDE
+   [LIVE]       about the tree as it is: the variant [current] computed from Extracted.Facts.  The
+                repaired flags are discharged by computation (Fp/Current.v: cur_safe, cur_listjson_dry,
+                cur_ts_rollback, cur_force_records), so a regression of a repair in /repo breaks these
+                obligations; the hypotheses carve out exactly the OPEN findings, each shown necessary by
+                a LIVE _refuted witness below.
+   [REPAIRED]   about the variant in which every finding is repaired (exact fingerprints, digest
+                recorded for method timestamp too): the full statement, no carve-outs.
+   [HISTORICAL] about the code before the fix: commits (their premises are false for [current] today,
+                the statements stay true and re-apply if a fix regresses).                          *)
 
 (* the shapes of the code the model hard-wires (dry wiring, call sites, rollback on a failing command ...) *)
 Theorem C04_shape_obligation : fp_shape_ok = true.
 Proof. vm_compute. reflexivity. Qed.
 Print Assumptions C04_shape_obligation.
 
-(* Full statement, for the repaired protocol (record invalidated when an attempt starts,
+(* [REPAIRED] Full statement, for the repaired protocol (record invalidated when an attempt starts,
    written after the last command succeeded, digest of the exact fingerprint): for every
    glob matcher, every injective digest, every project whose tasks do not share a state
    file, every history of file operations and invocations with every outcome
@@ -30,7 +41,9 @@ Theorem C04_sound :
 Proof. exact c04_sound. Qed.
 Print Assumptions C04_sound.
 
-(* ... in particular for the variant the extracted facts say the tree is, once they say it is repaired *)
+(* [REPAIRED, conditional] ... for [current] once the facts say that the two open findings 7.8 and
+   timestamp set-blindness are repaired too; today v_fp_exact current = v_ts_exact current = false, so
+   this instance is vacuous - the live statements are C04_current_checksum / C04_current_timestamp. *)
 Theorem C04_sound_current :
   v_safe current = true -> v_fp_exact current = true -> v_ts_exact current = true -> v_listjson_dry current = true ->
   forall (Hx : fpr -> string), (forall a b, Hx a = Hx b -> a = b) ->
@@ -40,8 +53,87 @@ Theorem C04_sound_current :
 Proof. exact (fun a b c d Hx i => c04_sound gmatch idH Hx current a b c d i). Qed.
 Print Assumptions C04_sound_current.
 
-(* The code as it is.  Each lemma: as long as the extracted flag says the repair is absent,
-   the faithful model violates the monitor on the witness history (vm_compute). *)
+(* ------------------------------------------------------------------------------------------- *)
+(* [LIVE] The tree as it is.                                                                    *)
+
+(* the repairs, as facts about /repo (a regression breaks these, hence everything below) *)
+Theorem C04_current_flags :
+  v_safe current = true /\ v_listjson_dry current = true /\ v_ts_rollback current = true /\
+  v_prompt_rollback current = true /\ v_force_records current = true.
+Proof. vm_compute. repeat split. Qed.
+Print Assumptions C04_current_flags.
+
+(* [LIVE] method checksum, every history, every outcome (fail / kill at any command, declined prompt,
+   --force, --dry, --status, --list --json ...), under exactly two carve-outs:
+     (i)  wf_csc_proj: no two tasks share a state file        [open: normalizeFilename collision;
+                                                               necessary: C04_key_collision_refuted]
+     (ii) nocoll_run:  no fingerprint at which a task is checked shares its digest with a DIFFERENT
+                       fingerprint at which the task was attempted before   [open: 7.8 stream collision;
+                                                               necessary: C04_stream_collision_refuted] *)
+Theorem C04_current_checksum :
+  forall (matchb : string -> path -> bool) (H : string -> string) (Hx : fpr -> string)
+         (p : project) (s : state) (h : list event),
+    wf_csc_proj p -> cks s = [] ->
+    nocoll_run matchb H Hx current p (fs s) [] (observe matchb H Hx current p s h) = true ->
+    mon_C04 matchb p (snap_of s) (observe matchb H Hx current p s h) = true.
+Proof. exact c04_cur_checksum. Qed.
+Print Assumptions C04_current_checksum.
+
+(* [LIVE] method timestamp (marker compared with the newest source), every history and outcome, under
+     (i)   wf_ts_proj: no two tasks share a marker; the tasks have no generates
+                       [open: name collision - C04_key_collision_refuted; 7.4 residual (generates newer
+                        than the sources stand in for a successful run) - C04_timestamp_residual_refuted]
+     (iii) times_ok + ev_ok: logical time increases, file operations stamp the current time, and no file
+                       matched by a sources pattern is removed, renamed or given an explicit mtime
+                       [open: timestamp set-blindness - C04_timestamp_removal_refuted]               *)
+Theorem C04_current_timestamp :
+  forall (matchb : string -> path -> bool) (H : string -> string) (Hx : fpr -> string)
+         (p : project) (s : state) (h : list event) (T : N),
+    wf_ts_proj p -> tss s = [] ->
+    times_ok T h = true -> forallb (ev_ok matchb p) h = true ->
+    mon_C04 matchb p (snap_of s) (observe matchb H Hx current p s h) = true.
+Proof. exact c04_cur_timestamp. Qed.
+Print Assumptions C04_current_timestamp.
+
+(* [LIVE] each carve-out is necessary: the open findings, witnessed on the current variant *)
+Theorem C04_stream_collision_refuted :        (* 7.8, open *)
+  exists p h, mon_C04 gmatch p (snap_of w_init) (observe gmatch idH hx1 current p w_init h) = false.
+Proof. exact (ex_intro _ _ (ex_intro _ _ (proj2 (rename_collision_refuted current cur_fp_not_exact)))). Qed.
+Print Assumptions C04_stream_collision_refuted.
+
+Theorem C04_timestamp_removal_refuted :       (* timestamp set-blindness, open *)
+  exists p h, mon_C04 gmatch p (snap_of w_init) (observe gmatch idH hx1 current p w_init h) = false.
+Proof. exact (ex_intro _ _ (ex_intro _ _ (ts_removal_refuted_c04 current cur_ts_not_exact))). Qed.
+Print Assumptions C04_timestamp_removal_refuted.
+
+Theorem C04_timestamp_residual_refuted :      (* 7.4 residual, open: [run; force(fail); run] with generates *)
+  exists p h, mon_C04 gmatch p (snap_of w_init) (observe gmatch idH hx1 current p w_init h) = false.
+Proof. exact (ex_intro _ _ (ex_intro _ _ (ts_generates_residual_refuted current cur_ts_not_exact))). Qed.
+Print Assumptions C04_timestamp_residual_refuted.
+
+(* [LIVE] non-vacuity: an 8-step history with a failed and a killed (forced) attempt, an edit, a dry run;
+   it meets the hypotheses of both theorems and ends: failed, ok, skipped, -, killed, ok, skipped, skipped *)
+Example C04_current_checksum_example :
+  wf_csc_proj [w_task Checksum] /\ cks w_init = [] /\
+  nocoll_run gmatch idH hx1 current [w_task Checksum] (fs w_init) []
+             (observe gmatch idH hx1 current [w_task Checksum] w_init h_cur) = true /\
+  nocoll5_run gmatch idH hx1 current [w_task Checksum] (fs w_init) []
+             (observe gmatch idH hx1 current [w_task Checksum] w_init h_cur) = true /\
+  map o_res (observe gmatch idH hx1 current [w_task Checksum] w_init h_cur)
+  = [RFailed; ROk; RSkipped; RFile; RKilled; ROk; RSkipped; RSkipped].
+Proof. exact cur_checksum_example. Qed.
+
+Example C04_current_timestamp_example :
+  wf_ts_proj [w_task Timestamp] /\ tss w_init = [] /\ K gmatch [w_task Timestamp] 10 (fs w_init) /\
+  times_ok 10 h_cur = true /\ forallb (ev_ok gmatch [w_task Timestamp]) h_cur = true /\
+  map o_res (observe gmatch idH hx1 current [w_task Timestamp] w_init h_cur)
+  = [RFailed; ROk; RSkipped; RFile; RKilled; ROk; RSkipped; RSkipped].
+Proof. exact cur_timestamp_example. Qed.
+
+(* ------------------------------------------------------------------------------------------- *)
+(* [HISTORICAL unless marked] witnesses conditional on a repair being absent.  7.4-7.7 are repaired
+   in /repo (641799f, d637d06, 2f7088d): their premises are false for [current] today; the statements
+   re-apply the moment a repair regresses.  The key collision is LIVE (unconditional). *)
 Theorem C04_timestamp_failure_refuted :      (* 7.4 *)
   v_ts_rollback current = false -> v_safe current = false -> v_ts_exact current = false ->
   exists p h, mon_C04 gmatch p (snap_of w_init) (observe gmatch idH hx1 current p w_init h) = false.
@@ -66,13 +158,13 @@ Theorem C04_killed_after_check_refuted :     (* 7.7 *)
 Proof. exact (fun a => ex_intro _ _ (ex_intro _ _ (killed_refuted current Checksum a method_cs_ne))). Qed.
 Print Assumptions C04_killed_after_check_refuted.
 
-Theorem C04_key_collision_refuted :          (* normalizeFilename is not injective *)
+Theorem C04_key_collision_refuted :          (* [LIVE, open] normalizeFilename is not injective *)
   exists p h, mon_C04 gmatch p (snap_of w_init) (observe gmatch idH hx1 current p w_init h) = false.
 Proof. exact (ex_intro _ _ (ex_intro _ _ (key_collision_refuted current Checksum method_cs_ne))). Qed.
 Print Assumptions C04_key_collision_refuted.
 
-(* What does hold for the code as it is (the check writes the record, a failing command removes
-   it): soundness for method checksum over every history in which no invocation is killed, the
+(* [HISTORICAL] What held for the code BEFORE 641799f (the check writes the record, a failing command
+   removes it; premise v_safe current = false is false today): soundness for method checksum over every history in which no invocation is killed, the
    tasks have no prompt and --list --json does not write, provided no two distinct fingerprints
    of a task that occur collide under the digest (nocoll_run; for an injective hash: no collision
    of the basename++content stream, cf. C05_stream_not_injective). *)
@@ -96,7 +188,7 @@ Example C04_partial_example :
   = [RFailed; ROk; RFile; RFailed; ROk; RSkipped].
 Proof. exact partial_example. Qed.
 
-(* non-vacuity of C04_sound: a two-task project meets wf_proj, and a 6-step history with a
+(* [REPAIRED] non-vacuity of C04_sound: a two-task project meets wf_proj, and a 6-step history with a
    failed, a killed and a successful attempt runs to the end in the repaired variant *)
 Example C04_example :
   wf_proj [w_task Checksum; w_gen Timestamp] /\ empty_store w_init /\
